@@ -98,7 +98,9 @@ func Verif_C11_rows() {
 	name := verifStringN("name", 1)
 	age, score, extra := verifInt64("age"), verifInt64("score"), verifInt64("extra")
 	strict := verifChoose("strict", 2) == 1
-	switch verifCase(8) {
+	switch verifCase(9) {
+	case 8: // a result buffer reused between two queries
+		verifC11ReusedBuffer(name, age, score, extra)
 	case 0: // tagged struct: by column name, independent of column order, extra columns ignored
 		orders := [][]string{{"name", "age"}, {"age", "name"}, {"age", "extra", "name"}, {"extra", "name", "age"}}
 		cols := orders[verifChoose("order", 4)]
@@ -293,3 +295,56 @@ func verifC11SameName(name string, age, extra int64, strict bool) {
 	}
 	verifReach("same-name-tagged-untagged")
 }
+
+// Case 8: the caller reuses one result buffer for two multi-row queries
+// (buf = buf[:0] in between, so the spare capacity still holds the first
+// query's elements).  "A query result is copied into the destination": every
+// element of the second result is built from ITS OWN row only - a column absent
+// from the second (partial) result leaves the field zero, and a pointer field is
+// a fresh object, so rows the caller copied out of the first result are not
+// rewritten by the second query.
+type verifReusedRow struct {
+	Name string `db:"name"`
+	Age  int64  `db:"age"`
+	Ref  *int64 `db:"ref"`
+}
+
+func verifC11ReusedBuffer(name string, age, score, extra int64) {
+	var buf []verifReusedRow
+	cols := []string{"name", "age", "ref"}
+	first := [][]verifCell{{{s: name}, {n: age}, {n: extra}}, {{s: name}, {n: score}, {n: extra}}}
+	err := unmarshalRows(&buf, &verifRows{cols: cols, rows: first}, true)
+	verifAssert(err == nil && len(buf) == 2 && buf[0].Age == age && buf[1].Age == score && buf[0].Ref != nil && *buf[0].Ref == extra, "rows: first result mapped")
+	if err != nil || len(buf) != 2 || buf[0].Ref == nil {
+		return
+	}
+	kept := buf[0] // the caller copies a row out
+	buf = buf[:0]
+
+	nrows := 1 + verifChoose("rows2", 2)
+	if verifChoose("secondResult", 2) == 0 {
+		// partial result without the age and ref columns
+		cols2 := []string{"name"}
+		second := [][]verifCell{{{s: name}}, {{s: name}}}[:nrows]
+		err = unmarshalRowsPartialForVerif(&buf, &verifRows{cols: cols2, rows: second})
+		verifAssert(err == nil && len(buf) == nrows, "rows: partial second result mapped into the reused buffer")
+		for i := 0; i < len(buf) && i < nrows; i++ {
+			verifAssert(buf[i].Name == name, "reused buffer: the column present is mapped")
+			// (the mapper allocates pointer fields up front, also for absent columns: nil or a pointer to zero)
+			verifAssert(buf[i].Age == 0 && (buf[i].Ref == nil || *buf[i].Ref == 0), "reused buffer: a field whose column is absent from this result is zero, not the previous query's value")
+			verifAssert(buf[i].Ref == nil || buf[i].Ref != kept.Ref, "reused buffer: a pointer field is not the object handed out with the previous result")
+		}
+		verifReach("reused-partial")
+	} else {
+		second := [][]verifCell{{{s: name}, {n: age + 1}, {n: extra + 1}}, {{s: name}, {n: age + 2}, {n: extra + 2}}}[:nrows]
+		err = unmarshalRows(&buf, &verifRows{cols: cols, rows: second}, true)
+		verifAssert(err == nil && len(buf) == nrows, "rows: second result mapped into the reused buffer")
+		for i := 0; i < len(buf) && i < nrows; i++ {
+			verifAssert(buf[i].Age == age+int64(i)+1 && buf[i].Ref != nil && *buf[i].Ref == extra+int64(i)+1, "reused buffer: each element holds its own row")
+		}
+		verifAssert(kept.Age == age && *kept.Ref == extra, "reused buffer: a row copied out of the first result is not rewritten by the second query (pointer fields are fresh objects)")
+		verifReach("reused-full")
+	}
+}
+
+func unmarshalRowsPartialForVerif(v any, rows rowsScanner) error { return unmarshalRows(v, rows, false) }
